@@ -577,6 +577,16 @@ func (sc *Sched) captureSites() {
 	}
 }
 
+// Pending returns the label of the request the task is parked on ("" if it has exited).
+//
+//go:norace
+func (t *Task) Pending() string {
+	if t.exited || t.req == nil {
+		return ""
+	}
+	return t.req.Label
+}
+
 // Exited reports whether the task has finished.
 //
 //go:norace
